@@ -5,8 +5,9 @@ sys.path.insert(0, os.path.dirname(os.path.abspath(__file__)))
 from ksmt import engine
 
 TECH = ('bounded symbolic model checking of the compiled code: Kani codegen of /repo + harness -> CBMC symbolic execution '
-        '(unwinding assertions) -> SMT-LIB VC -> {mode} interpretation -> z3 verdict over all inputs in the bound; '
-        'sat models replayed natively')
+        '(unwinding assertions) -> SMT-LIB VC -> {mode} interpretation -> z3 / cvc5 verdict over all inputs in the bound; '
+        'sat models replayed natively (an obligation the solvers leave undecided is additionally replayed natively on '
+        'seeded candidate inputs: a reproduced failure is reported, nothing is concluded otherwise)')
 NOTE = ('Trusted: rustc/Kani 0.68 codegen, CBMC 6.11 symex + SMT encoder, ksmt interpreter (B/U/R), z3; stubs is_square, '
         'f64::abs, libm as uninterpreted functions (ksmt/models.c); bounds per obligation in evidence samples. R verdicts '
         'are algebraic (floats read as reals): they do not certify rounding, overflow or NaN behaviour.')
@@ -34,9 +35,12 @@ CLAIMS = {
             'non-conformable operands must panic.', 'R', '§4 C05'),
     'C06': ('Sub-clauses only: inverse link, variance function, link derivative and deviance of the six families equal the '
             'textbook forms (Gaussian deviance = residual sum of squares), predictions = inverse link of X beta + offset '
-            '(R, exp / ln uninterpreted). The score equations of `fit` (one Fisher step of the intercept-only model) are in '
-            'the thorough tier and currently undecided; designs with more than one column, the ridge penalty, standard '
-            'errors and reordering invariance are not decided.', 'R', '§9'),
+            '(R, exp / ln uninterpreted); a ridge-penalised Gaussian fit on a 3x2 design with symbolic responses and strength '
+            'equals ridge least squares with an unpenalised intercept whenever success is reported within two iterations '
+            '(compositional: the linear solver inside fit is replaced by its contract A x = b, which is C01\'s subject). '
+            'Thorough tier: deviance / dispersion / standard error of a Gaussian fit (decided), one Fisher step per family '
+            'and longer ridge fits (undecided). Non-Gaussian designs with more than one column, reordering invariance and '
+            'NaN handling are not decided.', 'R', '§9, §8.5'),
     'C07': ('trapz exact on affine integrands and equal to the composite rule for arbitrary (uninterpreted) integrands; '
             'Romberg exact on monomials up to degree 2k-1 (k<=4) incl. positive tolerances; quad5 = 10-point Gauss-Legendre '
             'sum for arbitrary integrands plus the table moments up to degree 19; sample trapezoid = piecewise-linear '
@@ -45,7 +49,8 @@ CLAIMS = {
             'decided equal to their textbook definition for every real data vector of each instance length, with shift / '
             'scale relations (R); min/max/argmin/argmax first-occurrence semantics on finite data (R, exact for '
             'comparison-only code).', 'R', '§4 C08'),
-    'C09': ('Sub-clauses only: erf odd (U), |erf| <= 1 (R), digamma recurrence (R). The accuracy figures of the property are '
+    'C09': ('Sub-clauses only: erf odd (U), |erf| <= 1 (R), digamma recurrence (R), gamma: every power / exponential argument in '
+            'range on [1/2, 171] (R + range obligations). The accuracy figures of the property are '
             'NOT decided: no semantics for the true transcendental functions is available to the solvers in this image.',
             'U/R', '§4 C09, §9'),
     'C10': ('SGD (plain, momentum, Nesterov) one step on 1-D / 2-D quadratic families equals the published rule with the '
@@ -53,7 +58,7 @@ CLAIMS = {
             'Levenberg-Marquardt instances are in the thorough tier and currently undecided.', 'R', '§4 C10, §9'),
     'C11': ('Cholesky: lower-triangular, positive diagonal, L L^T = A for SPD input (orders 1-3), non-PD input rejected; '
             'LU: permutation, unit-lower |l|<=1, P A = L U per pivot outcome (orders 1-2, 3 thorough), slice and Matrix forms '
-            'identical; det = determinant polynomial; ipiv_parity = inversion parity for every permutation of length <= 5 '
+            'identical (also bit for bit with opaque floats at order 2); det = determinant polynomial; ipiv_parity = inversion parity for every permutation of length <= 5 '
             '(bit-precise); triangular / Cholesky / LU solves invert their systems (R/B).', 'R/B', '§4 C11'),
     'C12': ('Every shape pair up to 3x3 (4x4 thorough) x four operators: compatible pairs give the NumPy-broadcast result '
             'entry by entry with float operations uninterpreted (U), incompatible pairs must panic; Matrix/Vector forms.',
@@ -61,14 +66,17 @@ CLAIMS = {
     'C18': ('One inductive step per mutation (setter pair, bulk update) from an arbitrary valid object against a freshly '
             'constructed twin: density / mass at a symbolic point, mean, variance and - for closed-form samplers - the draw '
             'from the same recorded RNG stream; valid targets accepted across disjoint intervals; invalid values rejected '
-            'in setters and updates (R).', 'R', '§4 C18, §9'),
+            'in setters and updates (R). Derived sampler state (Beta, ChiSquared): the object representation after any setter / '
+            'update equals a fresh object\'s for every parameter (U/B, sufficient condition), with bounded same-stream draws '
+            'as the necessary-side fall-back.', 'R/U/B', '§4 C18, §9'),
     'C19': ('bootstrap: count/length of resamples, every element is data[drawn index], RNG asked for an index in range, '
-            'every index reachable; jackknife: exactly the leave-one-out vectors in order; shuffle / shuffle_two on '
-            'length 1 (longer inputs: thorough tier, currently undecided by the solver); RNG = symbolic draws via the '
-            'alea shim (U, small-integer conversion facts).', 'U/B', '§4 C19'),
+            'every index reachable; jackknife: exactly the leave-one-out vectors in order; shuffle / shuffle_two: output = '
+            'image of the input(s) under one (common) permutation for lengths 1 and 2 and every stream (length 3: sat '
+            'direction only within the cap); RNG = symbolic draws via the alea shim (U, exact float comparisons).', 'U', '§4 C19'),
     'C13': ('acovf / acf against the biased-estimator definition, evenness, acf(0)=1, |acf|<=1 (small instances), '
-            'difference as inverse of cumulative sums, AR(1)/AR(2) Yule-Walker equations and intercept, multi-step forecasts '
-            '= intercept + recursion on the centred history (R).', 'R', '§4 C13'),
+            'difference as inverse of cumulative sums, AR(1)/AR(2) Yule-Walker equations and intercept (AR(1) at the quick cap: '
+            'undecided), multi-step forecasts = intercept + recursion on the centred history (R); a second fit on an object '
+            'holding arbitrary state equals a fresh fit bit for bit (U, one inductive step).', 'R/U', '§4 C13'),
     'C14': ('fit: normal equations for degree 0 (degree 1 thorough; goes through vandermonde, xtx, invert_matrix); '
             'predict: Horner evaluation equals the polynomial for degrees 0-6; length mismatch panics (R).', 'R', '§4 C14'),
     'C15': ('One inductive step of every structural operation from an arbitrary valid state against a row-major model '
@@ -82,8 +90,9 @@ CLAIMS = {
             'both sides of the range, checked-variant rejections, for 2..6 knots (R).', 'R', '§4 C16'),
     'C17': ('logistic range/monotonicity/reflection and logit inversion with exp/ln uninterpreted + instantiated axioms; '
             'softmax positivity, unit sum, order, shift invariance and the overflow obligation on every exp argument; '
-            'Box-Cox formulas and domains (R). binom_coeff: only k=0 is decided within the cap (symbolic 64-bit divisor '
-            'chains do not bit-blast in reach) - stated in DESIGN.md.', 'R/B', '§4 C17'),
+            'Box-Cox formulas and domains (R). binom_coeff = exact C(N,k) for every k in [0,N] per concrete N (quick: N = 0, 1, 2, '
+            '10, 67 and two rotating ones; thorough: every N <= 100) and for K = 0, 1 with symbolic n (bit-precise integers '
+            'against a compiler-evaluated Pascal triangle).', 'R/B', '§4 C17, §9'),
 }
 PENDING = 'check not built yet in this round; see DESIGN.md §4 for the planned decision procedure'
 
